@@ -71,7 +71,11 @@ func (t *tr) stmt(s ast.Stmt) {
 				} else {
 					val = t.V.W.zero(o.Type())
 				}
-				t.assign(t.localVar(o), val)
+				if lv, ok := o.(*types.Var); ok && t.escaped[lv] {
+					t.storePtr(t.escapedCell(lv), val, n.Pos())
+				} else {
+					t.assign(t.localVar(o), val)
+				}
 			}
 		}
 	case *ast.ReturnStmt:
@@ -144,6 +148,10 @@ func (t *tr) defineIdent(n *ast.Ident, v Term) {
 		return
 	}
 	v = t.coerceTo(v, v.T, lv.Type(), n.Pos())
+	if t.escaped[lv] {
+		t.storePtr(t.escapedCell(lv), v, n.Pos())
+		return
+	}
 	t.assign(t.localVar(lv), v)
 }
 
